@@ -75,12 +75,16 @@ def plan(prop, tier):
                  bounds={"max_input_length": 4 if q else 5}, require={"parses": 100000, "c04_cases_pruning_needed": 50})
     elif prop == "C09":
         fl = ["--la", "0,1,2,-5,3,7,2147483647"]
-        jobs = [gram(prop, "q-la", "c", "q", 4, fl), gram(prop, "qe-la", "c", "qe", 4 if q else 5, fl),
-                gram(prop, "cur-la", "c", "cur", 6, fl, shards=4),
-                gram(prop, "cur-debug", "c-asan", "cur", 4, ["--la", "1", "--debug", "0,1,2,3,4,5,6,-1", "--rec", "1"], shards=NPROC)]
+        jobs = [gram(prop, "q-la", "c", "q", 4, fl), gram(prop, "qe-la", "c", "qe", 4 if q else 5, fl + ["--rec", "1"]),
+                gram(prop, "cur-la", "c", "cur", 5 if q else 7, fl, shards=NPROC),
+                gram(prop, "cur-debug", "c-asan", "cur", 4, ["--la", "1", "--debug", "0,1,2,3,4,5,6,-1", "--rec", "1"], shards=NPROC),
+                Job("repetitive", "c", ["gram", "--family", "rep", "--props", "C09", "--r", "3" if q else "4", "--len", "300" if q else "2000"], NPROC)]
+        if not q:
+            jobs += [gram(prop, "q3-la", "c", "q3", 5, fl), gram(prop, "t1-la", "c", "t1", 5, ["--la", "0,1,2", "--one", "1", "--cost", "0", "--rec", "1"])]
         P = dict(base, jobs=jobs, nontrivial_key="c09_comparisons",
-                 rule="differential: for every (grammar,input,one_parse,cost,recovery) the canonical observation (code, syntax_error calls, flag, denoted tree set with costs) is compared across lookahead arguments {0,1,2,-5,3,7,INT_MAX} and across debug levels {0..6,-1}",
-                 bounds={"max_input_length": 4}, require={"c09_comparisons": 10000})
+                 rule="(a) differential: for every (grammar,input,one_parse,cost,recovery) of the families the canonical observation (code, syntax_error calls, flag, denoted tree set with costs) is compared across lookahead arguments {0,1,2,-5,3,7,INT_MAX} and across debug levels {0..6,-1} (ASan, stderr discarded); (b) cache soundness: with the YAEP_VERIF hook every hit of the (set, terminal, lookahead) cache is recomputed with build_new_set and must give the same (hash-consed) set - on all those parses and on exhaustively generated repetitive inputs: all concatenations of <= r fragments per curated grammar, with one offending fragment inserted at every position, also extended periodically to the target length; distinct_nontrivial = cross-level comparisons made",
+                 bounds={"max_input_length": 4, "repetitive_fragments": 3 if q else 4, "repetitive_length": 300 if q else 2000},
+                 require={"c09_comparisons": 10000, "c09_cache_hits_checked": 1000})
     elif prop == "C13":
         fl = ["--fresh", "--ams", "0,1,2", "--la", "1"]
         jobs = [gram(prop, "q", "c", "q", 4, ["--tm", "vary", "--cms", "3", "--rec", "1"] + fl),
@@ -104,6 +108,33 @@ def plan(prop, tier):
         P = dict(base, jobs=jobs, nontrivial_key=nt,
                  rule="grammars of the families with 0-3 `error' occurrences x all token strings up to length n x lookahead 0..2 x one/all parses x recovery_match 1..5 (x recovery on/off for C06); oracles from the reference model: first non-viable prefix of G'' (error as terminal, implicit rule), argument relations; tree in the translations of some repair (segments replaced by error, up to n+1 segments) whose deleted length equals the reported total, unique-segment rule; bound = cheapest simple recovery (back p, skip to q, match m) measured from the reported error token",
                  bounds={"max_input_length": 4, "recovery_match": [1, 2, 3, 4, 5]}, require={"parses": 100000, nt: 1000})
+    elif prop in ("C11", "C12"):
+        pa = ["--prop", prop]
+        if prop == "C11":
+            jobs = [Job("printed-mini", "c", ["txt", "--mode", "printed", "--family", "mini", "--tm", "vary", "--inputs", "3"] + pa, NPROC),
+                    Job("printed-q", "c", ["txt", "--mode", "printed", "--family", "q", "--tm", "u0", "--inputs", "2", "--varstride", "16" if q else "4"] + pa, NPROC),
+                    Job("mutations", "c-asan", ["txt", "--mode", "mutations", "--inputs", "2"] + pa, NPROC),
+                    Job("bytes", "c", ["txt", "--mode", "bytes", "--len", "4" if q else "5"] + pa, NPROC)]
+            if not q:
+                jobs += [Job("printed-qe", "c", ["txt", "--mode", "printed", "--family", "qe", "--tm", "u0", "--inputs", "2", "--varstride", "8"] + pa, NPROC),
+                         Job("printed-q3", "c", ["txt", "--mode", "printed", "--family", "q3", "--tm", "vary", "--inputs", "2", "--varstride", "16"] + pa, NPROC)]
+            P = dict(base, jobs=jobs, states_key="texts", transitions_key="texts", nontrivial_key="texts_valid",
+                     rule="(a) every grammar of the family x translation menu printed under the product of lexical variations (separator blank/newline/tab/comment, optional semicolons, TERM section before/after/both/split, identifiers with explicit codes / implicit codes / character constants, repeated declaration, cost written or omitted = 384 variants; a stride samples variants for the larger family) - yaep_parse_grammar must return what yaep_read_grammar returns on the denoted grammar and give identical parses (all parses, cost flag off/on) on all inputs up to length 3; the reference reader must denote exactly the printed grammar (self-check); (b) all prefixes and all single-character deletions, insertions and substitutions (20-character alphabet) of 28 seed texts, (c) all byte strings up to length 4 (thorough 5) over that alphabet, each judged by the three-valued reference reader: VALID -> equal to yaep_read_grammar on the denoted grammar, INVALID -> documented nonzero code, line number inside the text, UNSPECIFIED -> returns a documented code; distinct_nontrivial = texts the reference reads as VALID",
+                     bounds={"lexical_variants": 384, "mutation_alphabet": 20, "byte_string_length": 4 if q else 5},
+                     require={"texts": 100000, "texts_valid": 10000, "texts_invalid": 10000, "behaviour_comparisons": 10000})
+        else:
+            jobs = [Job("bytes-asan", "c-asan", ["txt", "--mode", "bytes", "--len", "4" if q else "5"] + pa, NPROC),
+                    Job("mutations-asan", "c-asan", ["txt", "--mode", "mutations", "--inputs", "1"] + pa, NPROC),
+                    Job("longnames-asan", "c-asan", ["txt", "--mode", "longnames"] + pa, 1),
+                    Job("def-asan", "c-asan", ["def", "--sample", "53" if q else "7", "--prop", "C12"], NPROC),
+                    Job("hist-asan", "c-asan", ["hist", "--slots", "2", "--full", "4", "--bfs", "4" if q else "6", "--props", "C12,C14,C15,C13", "--crash-prop", "C12"], 1),
+                    gram("C12", "gram-q-asan", "c-asan", "q", 3 if q else 4, ["--tm", "u0" if q else "vary", "--fresh", "--la", "1,2", "--one", "0,1", "--cost", "0,1", "--rec", "1", "--ams", "0,2"]),
+                    gram("C12", "gram-qe-asan", "c-asan", "qe", 3 if q else 4, ["--fresh", "--la", "1", "--one", "0,1", "--cost", "0,1", "--rec", "1", "--match", "1,3", "--ams", "0"]),
+                    gram("C12", "gram-mini-asan", "c-asan", "mini", 4, ["--tm", "vary", "--cms", "3", "--fresh", "--la", "0,1,2", "--one", "0,1", "--cost", "0,1", "--rec", "1", "--ams", "0,2"]),
+                    gram("C12", "gram-cur-asan", "c-asan", "cur", 4 if q else 6, ["--la", "0,1,2", "--ams", "0,2"], shards=NPROC)]
+            P = dict(base, jobs=jobs, states_key="texts", transitions_key="texts", nontrivial_key="texts",
+                     rule="union of the engines under ASan + UBSan(signed-integer-overflow, shift, divide-by-zero, null, bounds) + watchdog: all byte strings up to the length and all 1-edit mutants/prefixes of the seed texts as descriptions (exactly sized heap blocks), symbol names of 1..1000 characters through every message-producing error with strlen(message) <= 200, 300-symbol grammars with dense and sparse codes, a slice of the callback-level description product, API histories, the parse spaces of the gram engine incl. recovery, all-parses, cost pruning and the default allocator; any sanitizer report, signal, exit() or timeout is a violation with the case attached",
+                     bounds={"byte_string_length": 4 if q else 5}, require={"texts": 100000, "parses": 100000, "definitions": 10000, "long_name_cases": 100})
     elif prop == "C10":
         jobs = [Job("def", "c", ["def"] + ([] if q else ["--thorough"]), NPROC), Job("def-asan", "c-asan", ["def", "--sample", "97"], NPROC)]
         P = dict(base, jobs=jobs, states_key="definitions", transitions_key="definitions", nontrivial_key="nontrivial_rejections",
